@@ -375,6 +375,7 @@ func (fc *FnCtx) inlineBody(st *State, body *ast.BlockStmt, sig *types.Signature
 	st.callDepth++
 	sub := st.clone()
 	r := fc.execBlock(body.List, sub)
+	namedInline := fc.namedRes
 	fc.fnSig, fc.namedRes = savedFn, savedNamed
 	if len(r.breaks)+len(r.conts) > 0 {
 		fc.fail(pos, "break/continue escaping closure")
@@ -393,13 +394,28 @@ func (fc *FnCtx) inlineBody(st *State, body *ast.BlockStmt, sig *types.Signature
 		ends = append(ends, r.normal)
 	}
 	ends = append(ends, r.rets...)
+	// deferred calls of the inlined body run, last first, when the body returns (plain deferred calls and function
+	// literals; the results were fixed before - a deferred closure that assigns named results is outside the subset)
 	for _, e := range ends {
-		if len(e.defers) > 0 {
-			fc.fail(pos, "defer inside inlined closure (outside subset)")
+		ds := e.defers
+		e.defers = nil
+		for i := len(ds) - 1; i >= 0; i-- {
+			d := ds[i]
+			savedRet := e.ret
+			if d.lit != nil {
+				if namedInline {
+					fc.fail(pos, "deferred closure in an inlined function with named results (outside subset)")
+				}
+				fc.inlineFuncLit(e, d.lit, nil, d.call.Pos())
+			} else {
+				fc.evalCall(e, d.call)
+			}
+			e.ret = savedRet
 		}
 	}
 	for _, p := range r.panics {
-		p.defers = savedDefers
+		// a panic inside the inlined body first runs the body's own defers, then the caller's
+		p.defers = append(append([]*deferred{}, savedDefers...), p.defers...)
 		p.callDepth--
 		fc.pendingPanics = append(fc.pendingPanics, p)
 	}
